@@ -148,8 +148,11 @@ def run_shard(prop, fn, seed, k, n):
                 break
             ctx.rng = _random.Random((seed * 1009 + k) * 7919 + rounds)
     except Exception:  # noqa: BLE001
-        traceback.print_exc()
-        rc = 2
+        # as in the quick tier: a generator that stops on unexpected behaviour of the
+        # implementation is a broken tie, not a tool error
+        tb = traceback.format_exc()
+        sys.stderr.write(tb)
+        ctx.disagreements.append(dict(kind='generator-stopped', error=tb[-2500:], shard=k))
     ctx.notes.append(f'shard {k}: {rounds} rounds')
     out = dict(rc=rc, evaluations=ctx.evaluations, hashes=sorted(ctx.case_hashes), samples=ctx.samples[:2],
                dist=ctx.dist, violations=ctx.violations[:50], n_violations=len(ctx.violations),
@@ -252,8 +255,19 @@ def main():
         try:
             fn(ctx)
         except Exception:  # noqa: BLE001
-            traceback.print_exc()
-            return 2
+            # The generator met behaviour of the implementation it has no expectation for (it
+            # never does on the tree it was validated on): the tie is broken.  Reported like a
+            # correspondence failure (search, then VIOLATION … no-failing-input-found), with the
+            # traceback and the last protocol lines in the replay.
+            tb = traceback.format_exc()
+            sys.stderr.write(tb)
+            last = []
+            try:
+                for lines, _a, _s, _l in ctx.pending[-1:]:
+                    last = lines[-30:]
+            except Exception:  # noqa: BLE001
+                pass
+            ctx.disagreements.append(dict(kind='generator-stopped', error=tb[-2500:], last_lines=last))
     # a proof obligation or the correspondence broke and no failing input was seen yet:
     # search harder on the real code (the property's own thorough generators, bounded in time)
     ctx.flush_model()
